@@ -498,7 +498,7 @@ func checkC04(c *Ctx) {
 
 func checkC16(c *Ctx) {
 	r, u := c.R, c.U
-	r.Explanation = "Necessary structural conditions of C16 only (thin claim): every Read/Seek failure on the introspection paths (ReadMetaData, PageHeaders, PageHeadersAtOffset) is reported (EP restricted to those functions); the page walk reads one header per iteration, appends exactly that header once, skips exactly its compressed_page_size bytes and advances its value count by that header's num_values; PageHeaders visits every column chunk of every row group in order and passes that chunk's own data_page_offset and num_values. every read on those paths is fill-or-fail (SR restricted to them); a valid footer is not refused and is located at tail position − length. Equality with an independent walk of arbitrary files is value-level and NOT decided."
+	r.Explanation = "Necessary structural conditions of C16 only (thin claim): every Read/Seek failure on the introspection paths (ReadMetaData, PageHeaders, PageHeadersAtOffset) is reported (EP restricted to those functions); the page walk reads one header per iteration, appends exactly that header once, skips exactly its compressed_page_size bytes and advances its value count by that header's num_values; the walk stops by count — for every class of the requested count no path leads from one header read to the next without comparing the values covered with it (LA-walk stops-by-count); PageHeaders visits every column chunk of every row group in order and passes that chunk's own data_page_offset and num_values. every read on those paths is fill-or-fail (SR restricted to them); a valid footer is not refused and is located at tail position − length. Equality with an independent walk of arbitrary files is value-level and NOT decided."
 	roots, _, ops := srcAnalysis(c)
 	reach := u.reach(roots.intro)
 	runEP(u, r, "EP/introspection", ops, fnSet(reach))
